@@ -131,7 +131,21 @@ def decVerdict (steps : List Decoding) (t : Bytes) (impl : Res Bytes) : String :
           | some e => if e == out then "HOLDS" else "FAILS step-effect"
           | none => "HOLDS-NA")
       else "HOLDS-NA"
-    | _ => "HOLDS-NA"
+    | _ =>
+      -- a sequence is the composition of its steps in order: every configured step runs, also on a text that an
+      -- earlier step emptied (only an EMPTY INPUT skips the steps); literal replacement on an intermediate empty
+      -- text is left to the model tie
+      if validUtf8 t then
+        (match steps.foldlM (fun (cur : Bytes) d =>
+            -- the character-level specification of a step speaks about valid UTF-8 only (a literal replacement
+            -- with an empty pattern can produce invalid UTF-8 for the next step)
+            if !validUtf8 cur then none else
+            match d with
+            | .replace _ _ => if cur.isEmpty then none else decStepSpec d cur
+            | _ => decStepSpec d cur) t with
+          | some e => if e == out then "HOLDS" else "FAILS sequence-not-composition"
+          | none => "HOLDS-NA")
+      else "HOLDS-NA"
   | _ => "FAILS not-total"
 
 def handleDecStep (args : List String) (impl : List String) : String :=
@@ -301,7 +315,15 @@ def handleDec (st : State) (args : List String) (impl : List String) : String :=
           -- the implementation's answer itself is judged.
           if tk.config.decoding.isEmpty then
             (if showResBytes (Spec.decoderSpec tk.dec ids s) == showResBytes r then "HOLDS" else "FAILS decoder-spec")
-          else "HOLDS-NA"
+          else
+            -- with clean-up steps: the steps' specification (C13) applied to the decoder's specification
+            (match Spec.decoderSpec tk.dec ids s with
+              | .ok raw =>
+                (match decVerdict tk.config.decoding raw r with
+                  | "HOLDS" => "HOLDS"
+                  | "HOLDS-NA" => "HOLDS-NA"
+                  | why => why ++ " (clean-up after decoding)")
+              | other => if showResBytes other == showResBytes r then "HOLDS" else "FAILS decoder-spec")
         | none => "NO-VERDICT"
       s!"{showOutBytes (tk.decode (mkExt tab) ids s)} || {verdict}"
     | _, _, _ => "BAD-OP"
